@@ -33,14 +33,14 @@ SETTLE_MS = 15000.0
 
 def floors(tier):
     q = tier == "quick"
-    return {"c07.converged": 2000 if q else 200000, "c07.lookup": 300 if q else 30000}
+    return {"c07.converged": 8000 if q else 300000, "c07.lookup": 3000 if q else 100000}
 
 
 def plan(tier, seed):
     if tier == "quick":
-        n, per, drops = 16, 10, 16
+        n, per, drops = 16, 25, 20
     else:
-        n, per, drops = 64, 16, 0      # 0 = every k
+        n, per, drops = 64, 40, 0      # 0 = every k
     return [{"seed": seed, "shard": i, "per": per, "drops": drops, "tier": tier} for i in range(n)]
 
 
